@@ -15,6 +15,8 @@ mod leaf;
 mod parser;
 mod pattern;
 mod util;
+#[cfg(feature = "verif_hooks")]
+pub mod verif;
 
 #[macro_use]
 #[allow(missing_docs)]
@@ -56,6 +58,8 @@ pub fn generate(input: TokenStream) -> TokenStream {
     let item_span = item.span();
 
     let name = &item.ident;
+    #[cfg(feature = "verif_hooks")]
+    verif::begin(&name.to_string());
 
     let mut parser = Parser::default();
 
@@ -317,16 +321,25 @@ pub fn generate(input: TokenStream) -> TokenStream {
     }
 
     debug!("Generating graph from leaves");
+    #[cfg(feature = "verif_hooks")]
+    verif::leaves(utf8_mode, &pats);
 
     let graph = match Graph::new(pats, config) {
         Ok(nfa) => nfa,
         Err(msg) => {
+            #[cfg(feature = "verif_hooks")]
+            {
+                verif::graph_build_error(&msg);
+                verif::finish(&[msg.clone()]);
+            }
             let mut errors = Errors::default();
             errors.err(msg, item_span);
             return impl_logos(errors.render().unwrap());
         }
     };
 
+    #[cfg(feature = "verif_hooks")]
+    verif::graph(&graph);
     debug!("Generated Automaton:\n{:?}", graph.dfa());
     debug!("Generated Graph:\n{graph}");
     debug!("Root node: {:?}", graph.root());
@@ -391,6 +404,8 @@ pub fn generate(input: TokenStream) -> TokenStream {
         }
     }
 
+    #[cfg(feature = "verif_hooks")]
+    verif::finish(&parser.errors.verif_messages());
     if let Some(errors) = parser.errors.render() {
         return impl_logos(errors);
     }
